@@ -242,3 +242,15 @@ Theorem C05_host_errors_refuted :
   /\ g_result (consumer_of (s "errors.Unwrap") (s "")) [s "Error"; s "Unwrap"] = s "Unwrap".
 Proof. exact errors_is_refuted. Qed.
 Print Assumptions C05_host_errors_refuted.
+
+(** The composed wrappers of wrapper-composed.go (Reader+WriterTo, Writer+ReaderFrom, ResponseWriter+Hijacker),
+    finite, on the regenerated table: every method set containing the static interface is served as in
+    compiled Go; the selection looks at the FULL method set (interpreted methods and methods promoted
+    from embedded interpreted or compiled types alike). *)
+Theorem C05_composed_wrappers_ok :
+  consumer_ok maptypes_gen copy_src = true /\ consumer_ok maptypes_gen copy_dst = true /\ consumer_ok maptypes_gen http_rw = true
+  /\ y_result maptypes_gen copy_src [s "Read"; s "WriteTo"] = s "WriterTo"
+  /\ y_result maptypes_gen copy_dst [s "ReadFrom"; s "Write"; s "WriteString"] = s "ReaderFrom"
+  /\ y_result maptypes_gen http_rw (map s ["Header"; "Hijack"; "Write"; "WriteHeader"]%string) = s "Hijacker".
+Proof. exact composed_ok_now. Qed.
+Print Assumptions C05_composed_wrappers_ok.
